@@ -17,10 +17,7 @@ import c16_objmodel as om
 AREA = "C16"
 
 # classes of the description that are not domain objects / cannot be compiled: described and listed, no verdict
-NO_VERDICT = {
-    "StaticElement<Modular<double>>": "element wrapper whose domain is a documented class static (setDomain): not a domain object",
-    "GFqKronecker<TT,Ints>": "gfqkronecker.h does not compile in this tree (missing givzpz.h): described by a source scan only",
-}
+NO_VERDICT = om.NO_VERDICT          # emitted into gen/Decide.v as sc_exceptions (C16_decided_self_contained excludes them, C16_decided_no_verdict_classes lists them)
 # A const method that writes an own member (mutable / cast / through a pointer: a lazily filled cache) is OUTSIDE the proved fragment
 # (the footprint model cannot express "the cached value is a function of the construction parameters"); none is accepted: the lazy
 # caches IntRNSsystem/RNSsystem used to have were removed from the library (a42d959), a re-introduced one is reported.
@@ -31,12 +28,12 @@ HIST_CLASSES = [
     "Modular<int8_t>", "Modular<uint8_t>", "Modular<int16_t>", "Modular<uint16_t>", "ModularExtended<double>", "ModularExtended<float>",
     "Modular<Integer>", "Modular<ruint<7>>", "ModularBalanced<int32_t>", "ModularBalanced<int64_t>", "ModularBalanced<float>",
     "ModularBalanced<double>", "Montgomery<int32_t>", "Montgomery<ruint<7>>", "Modular<Log16>", "GFqDom<int64_t>", "GFqDom<int32_t>",
-    "GFqExtFast<int64_t>", "GFqExt<int64_t>", "Extension<GFqDom<int64_t>>", "Poly1Dom<Modular<double>,Dense>",
+    "GFqExtFast<int64_t>", "GFqExt<int64_t>", "Extension<GFqDom<int64_t>>", "Extension<Modular<double>>", "Poly1Dom<Modular<double>,Dense>",
     "Poly1Dom<GFqDom<int64_t>,Dense>", "Poly1FactorDom<Modular<double>,Dense>", "Poly1FactorDom<GFqDom<int64_t>,Dense>",
     "IntRNSsystem<vector>", "RNSsystem<Integer,Modular<double>>",
 ]
 # constructors that draw a random irreducible polynomial (generator seeded from the clock): no cross-process reference
-NON_ISO = {"Extension<GFqDom<int64_t>>", "GFqDom<int64_t>", "GFqDom<int32_t>", "GFqExtFast<int64_t>", "GFqExt<int64_t>",
+NON_ISO = {"Extension<Modular<double>>", "Extension<GFqDom<int64_t>>", "GFqDom<int64_t>", "GFqDom<int32_t>", "GFqExtFast<int64_t>", "GFqExt<int64_t>",
            "Poly1Dom<GFqDom<int64_t>,Dense>", "Poly1FactorDom<GFqDom<int64_t>,Dense>"}
 # ... except through the overloads with a prescribed irreducible polynomial (and generator): those constructions are deterministic,
 # so every object built that way in any history is compared with the same construction in an otherwise empty process
@@ -64,6 +61,10 @@ def recycle_base(cls, V):
 def base_q(cls, q):
     """construct parameter of the same construction without recycling"""
     return (q & 3) + 4 * recycle_base(cls, q >> 2) if (q >> 2) in RECYCLED else q
+# classes whose objects own heap storage or nested domains: run under AddressSanitizer as well
+ASAN_CLASSES = ("Modular<Log16>", "GFqDom<int64_t>", "GFqExtFast<int64_t>", "GFqExt<int64_t>", "Extension<GFqDom<int64_t>>", "Extension<Modular<double>>",
+                "Poly1Dom<GFqDom<int64_t>,Dense>", "Poly1FactorDom<Modular<double>,Dense>", "IntRNSsystem<vector>", "RNSsystem<Integer,Modular<double>>",
+                "Modular<Integer>", "Montgomery<ruint<7>>")
 # expiry of the harness's own limits (CPU limit, wall-clock alarm, OOM killer): a statement about the tooling, never a violation by itself
 WATCHDOG = ("watchdog-cpu", "watchdog-wall", "skipped-after-watchdog", "signal-14", "signal-24", "signal-9")
 TOOLING_MARKS = ("[timeout after", "[timeout]", "Killed", "out of memory", "Out of memory", "virtual memory exhausted", "annot allocate memory",
@@ -195,6 +196,41 @@ def write_atomic_if_changed(path, text):
     return True
 
 
+# callees DECLARED in the library (namespace Givaro) that have no body even after the library unit harness/c16_lib.C was linked in: each one
+# is accepted here with its reason; any other is a broken obligation (the translator would silently assume "no effect")
+ACCEPTED_LIBRARY_CALLEES = {
+    "nonzerorandom : Givaro::Integer &(Givaro::Integer &, const Givaro::Integer &)": "member template of Integer (gmp++_int_rand.inl) that no unit instantiates; advances the GMP random state: randomised operation, outside the claim",
+    "nonzerorandom : Givaro::Integer (const long &)": "same member template (randomised)",
+    "nonzerorandom : Givaro::Integer &(Givaro::Integer &, const long &)": "same member template (randomised)",
+    "Givaro::IntPrimeDom *::nextprime : member": "IntPrimeDom::nextprime(Rep&, const Rep&, int) is declared in givintprime.h and defined nowhere in /repo; its only caller is IntFactorDom::Lenstra, "
+                                                  "which no described class reaches from a claimed method",
+}
+# ceiling for the explained categories (call sites): a jump means the dump lost bodies (other clang, filter, include layout)
+UNRESOLVED_CEILING = 3200
+
+
+def translator_gate(chk, meta):
+    """the translator's blind spot, classified: call sites whose callee has no body in the dump"""
+    cats = meta.get("unresolved_by_category") or {}
+    names = meta.get("unresolved_callees") or {}
+    chk.cov["unresolved_call_sites_by_category"] = cats
+    chk.cov["effect_table"] = {n: t for n, t, _ in om.EFFECT_TABLE}
+    chk.cov["library_definitions_linked"] = meta.get("linked_to_library_definitions")
+    chk.cov["recint_static_scan"] = meta.get("recint_static_scan")
+    unexplained = [n for n, c in names.get("UNEXPLAINED", [])]
+    lib = [n for n, c in names.get("DECLARED IN THE LIBRARY, NO BODY IN THE DUMP", []) if n not in ACCEPTED_LIBRARY_CALLEES]
+    chk.cov["library_callees_accepted_without_body"] = {n: ACCEPTED_LIBRARY_CALLEES[n] for n, c in names.get("DECLARED IN THE LIBRARY, NO BODY IN THE DUMP", []) if n in ACCEPTED_LIBRARY_CALLEES}
+    if unexplained:
+        chk.broke("object-model translator: %d callee(s) without a body match no entry of the effect table (assumed effect-free without a reason): %s" % (len(unexplained), "; ".join(unexplained[:12])))
+    if lib:
+        chk.broke("object-model translator: callee(s) declared in the library have no body in the dump (harness/c16_inst.C + c16_lib.C) and are not on the accepted list: %s" % "; ".join(lib[:12]))
+    if sum(cats.values()) > UNRESOLVED_CEILING:
+        chk.broke("object-model translator: %d call sites without a body (ceiling %d): the dump lost function bodies" % (sum(cats.values()), UNRESOLVED_CEILING), json.dumps(cats))
+    fls = (meta.get("recint_static_scan") or {}).get("function_local_statics")
+    if fls:
+        chk.broke("RecInt headers (value types outside the dump) contain function-local statics: the effect-table entry 'RecInt value types' no longer holds", "; ".join(fls))
+
+
 def describe_for_evidence(descs):
     out = {}
     for d in descs:
@@ -202,6 +238,8 @@ def describe_for_evidence(descs):
         cm = [m for m in d["methods"] if m["const"]]
         out[d["name"]] = {"members": len(d["members"]), "methods": len(d["methods"]), "const_methods": len(cm),
                           "claimed": sum(1 for m in cm if mi.claimed(m)), "self_contained": sum(1 for m in cm if mi.claimed(m) and mi.method_sc(m)),
+                          "self_contained_stateful": sum(1 for m in cm if mi.claimed(m) and mi.method_sc(m) and not mi.stateless(m)),
+                          "stateless": sum(1 for m in cm if mi.claimed(m) and mi.stateless(m)),
                           "race_free": sum(1 for m in cm if mi.claimed(m) and mi.method_rf(m)),
                           "randomised": sum(1 for m in cm if mi.randomized(m)), "source": d.get("source"),
                           "constructors": len(d.get("ctors") or []), "constructor_effects": [list(e) for e in mi.ctor_eff], "constructors_pure": mi.ctor_pure(),
@@ -340,6 +378,7 @@ DIRECTED = [
     "c0:A c1:B a1:0 u1 d0 u1", "c0:A c1:B a0:1 u0 u1 d1 u0", "c0:A a0:0 u0", "c0:A u0 a0:0 u0 k1:0 d0 u1", "c0:A k1:0 a0:1 u0 d1 u0",
     "c0:A k1:0 a1:0 d0 u1", "c0:A c1:B k2:1 a2:0 u2 d0 d1 u2", "c0:A c1:B k2:0 a0:1 a1:2 d2 u0 u1", "c0:A c1:B c2:C a0:1 a1:2 a2:0 u0 u1 u2",
     "c0:A k1:0 k2:1 d0 d1 u2", "c0:A c1:B a0:1 a0:0 a1:0 d1 u0", "c0:B d0 c0:A u0", "c0:A c1:B d1 c1:C k2:1 a2:0 d0 u2",
+    "c0:A c1:B w0:1 u0 u1 d0 u1", "c0:A c1:B k2:0 w2:1 d0 u1 u2 a1:2 d2 u1", "c0:A c1:B m0:1 u0 d1 u0", "c0:A c1:B m1:0 a0:1 u0 u1 d1 u0", "c0:A k1:0 m0:1 d1 u0 w0:0 u0",
     "c0:C c1:A a1:0 a1:1 u1", "c0:A c1:A a0:1 u0 d1 u0", "c0:A c1:A k2:0 a2:1 u2 d1 u2", "c0:B c1:B a1:0 u1", "c0:A k1:0 k2:0 a1:2 d0 d2 u1", "c0:D c1:A u1 a0:1 u0", "c0:A c1:D a1:0 u1 k2:1 d1 d0 u2",
 ]
 
@@ -440,7 +479,11 @@ def parse_line(line):
 
 def category(ev, obj):
     k, n = ev[0], int(ev[1])
-    m = int(ev[3:]) if ":" in ev and k in "ka" else None
+    m = int(ev[3:]) if ":" in ev and k in "kawm" else None
+    if k == "w":
+        return "swap" if obj in (n, m) else "swap-other"
+    if k == "m":
+        return "move-target" if n == obj else ("moved-from" if m == obj else "move-other")
     if k == "c":
         return "construct" if n == obj else "construct-other"
     if k == "k":
@@ -475,10 +518,23 @@ def check_history(chk, cls, hist, steps, crash, iso):
     reported = set()
     evs = hist.split()
     last_ev = None
+    spec = cls.split("&")          # several classes alive in one process: slot N holds an object of the (N mod k)-th class
+    multi = len(spec) > 1
     for idx, (ev, objs) in enumerate(steps):
         last_ev = ev
         k, n = ev[0], int(ev[1])
-        if k == "c":
+        cls = spec[n % len(spec)]
+        if k == "w":
+            m = int(ev[3:])
+            ref[n], ref[m] = ref.get(m), ref.get(n)
+            for o in (n, m):
+                if ref.get(o) is None:
+                    ref.pop(o, None)
+        elif k == "m":
+            m = int(ev[3:])
+            if m in ref and m != n:
+                ref[n] = ref.pop(m)          # the moved-from object is alive but unspecified: no longer compared (a crash is still seen)
+        elif k == "c":
             p = int(ev[3:])
             base = dict(objs.get(n, {}))
             if iso.get((cls, base_q(cls, p))):
@@ -497,6 +553,7 @@ def check_history(chk, cls, hist, steps, crash, iso):
             if o not in ref:
                 continue
             p, exp = ref[o]
+            cls = spec[o % len(spec)]
             for part, h in parts.items():
                 ncmp += 1
                 e = exp.get(part)
@@ -508,13 +565,14 @@ def check_history(chk, cls, hist, steps, crash, iso):
                     e = pf_oracle(cls, p)
                 elif part == "args":
                     e = "independent"                  # the probe did not change when the caller overwrote / reused / destroyed the constructor's arguments
-                if e is not None and h != e and part not in reported:
-                    reported.add(part)
-                    chk.fail_input("history:%s:%s" % (cls, part), klass_of(evs, idx, ev, o),
-                                   {"class": cls, "history": hist, "event_index": idx, "event": ev, "object": o, "lineage_param": p & 3,
+                if e is not None and h != e and (cls, part) not in reported:
+                    reported.add((cls, part))
+                    chk.fail_input("history:%s:%s" % (cls, part), ("cross-class:" if multi else "") + klass_of(evs, idx, ev, o),
+                                   {"class": cls, "classes_in_process": "&".join(spec), "history": hist, "event_index": idx, "event": ev, "object": o, "lineage_param": p & 3,
                                     "constructor_overload": p >> 2, "part": part},
                                    e, h, "probe of object %d differs from its lineage's reference after event %s (replay: echo '%s %s' | C16_VERBOSE=1 c16_history)"
-                                   % (o, ev, cls, hist))
+                                   % (o, ev, "&".join(spec), hist))
+    cls = "&".join(spec)
     if crash is not None and (crash.startswith("skipped") or crash in WATCHDOG or crash == "no-such-constructor"):
         return ncmp           # skipped after repeated crashes (already reported) / tooling limits (handled by the caller)
     if crash is not None:
@@ -533,8 +591,10 @@ def check_history(chk, cls, hist, steps, crash, iso):
             cat = "after-self-assign"
         if any(e[0] == "s" for e in evs[:len(steps) + 1]):
             cat = "after-mutate"
-        if part not in reported:
-            chk.fail_input("history:%s:%s" % (cls, part), cat,
+        if obj is not None:
+            cls = spec[obj % len(spec)]
+        if (cls, part) not in reported:
+            chk.fail_input("history:%s:%s" % (cls, part), ("cross-class:" if multi else "") + cat,
                            {"class": cls, "history": hist, "crash": crash, "during_event": ev, "object": obj, "part": part}, "no crash", crash,
                            "the process died (%s) while evaluating part '%s' (replay: echo '%s %s' | c16_history)" % (crash, part, cls, hist))
     return ncmp
@@ -629,22 +689,24 @@ def resolve_watchdog(chk, hb, cls, hist, crash, tier, budget):
     rec["rerun"] = crash2
     # control: the constructions of this history, each alone in a fresh process, same limits
     ctl = sorted(set(e[3:] for e in hist.split() if e[0] == "c"))
+    import resource
     worst, ctl_ok = 0.0, True
     for q in ctl:
-        t1 = time.time()
-        rc, o2, _ = run_harness(hb, "%s c0:%s\n" % (cls, q), wall + 120, env)
-        worst = max(worst, time.time() - t1)
+        r0 = resource.getrusage(resource.RUSAGE_CHILDREN)
+        rc, o2, _ = run_harness(hb, "%s c0:%s\n" % (cls.split("&")[0] if "&" not in cls else cls, q), wall + 120, env)
+        r1 = resource.getrusage(resource.RUSAGE_CHILDREN)
+        worst = max(worst, (r1.ru_utime + r1.ru_stime) - (r0.ru_utime + r0.ru_stime))          # CPU seconds (load independent), like the limit
         c2 = parse_line(o2[0])[2] if o2 else "no answer"
         ctl_ok = ctl_ok and c2 is None
-    rec["control_constructions_alone"] = {"parameters": ctl, "all_completed": ctl_ok, "slowest_seconds": round(worst, 1)}
-    if ctl_ok and worst * 10 < rec["rerun_seconds"] and crash2 == "watchdog-cpu":
+    rec["control_constructions_alone"] = {"parameters": ctl, "all_completed": ctl_ok, "slowest_cpu_seconds": round(worst, 2)}
+    if ctl_ok and worst * 10 < cpu and crash2 == "watchdog-cpu":
         rec["verdict"] = "hang specific to the history: reproduced alone with %d s of CPU, the constructions alone need %.1f s" % (cpu, worst)
         steps = parse_line(line)[1] if line else []
         evs = hist.split()
         ev = evs[len(steps)] if len(steps) < len(evs) else "end"
         cat = category(ev, int(ev[1])) if ev != "end" else "destructors-at-end"
         chk.fail_input("history:%s:hang" % cls, cat, {"class": cls, "history": hist, "during_event": ev, "cpu_limit_s": cpu, "control": rec["control_constructions_alone"]},
-                       "terminates", "no answer within %d s of CPU time (twice), while each construction of the history alone finishes in <= %.1f s" % (cpu, worst),
+                       "terminates", "does not return: no answer within %d s of CPU time (and within the first limit before), while each construction of the history alone needs <= %.2f s of CPU" % (cpu, worst),
                        "replay: echo '%s %s' | C16_CPU_LIMIT=%d c16_history" % (cls, hist, cpu))
         return None
     rec["verdict"] = "inconclusive: stopped again with generous limits, and the constructions alone are not quick either (machine load / memory)"
@@ -693,6 +755,109 @@ def gen_ctor_histories(have, tier):
         if h not in seen:
             seen.add(h); out.append(h)
     return out
+
+
+# two or three classes alive together in ONE process (the property: "unaffected by which other domain objects exist or were used earlier")
+CROSS_COMBOS = [
+    ("GFqDom<int64_t>", "Extension<GFqDom<int64_t>>", "Poly1Dom<GFqDom<int64_t>,Dense>"),
+    ("Modular<int32_t>", "Modular<Log16>", "ModularBalanced<double>"),
+    ("GFqExt<int64_t>", "GFqDom<int32_t>", "GFqExtFast<int64_t>"),
+    ("IntRNSsystem<vector>", "RNSsystem<Integer,Modular<double>>", "Modular<double>"),
+    ("Poly1FactorDom<GFqDom<int64_t>,Dense>", "Modular<Integer>", "Extension<Modular<double>>"),
+    ("Montgomery<int32_t>", "Montgomery<ruint<7>>", "ModularExtended<double>"),
+    ("Poly1FactorDom<Modular<double>,Dense>", "Poly1Dom<Modular<double>,Dense>", "Modular<float>"),
+    ("Modular<ruint<7>>", "ModularBalanced<int64_t>", "Modular<uint64_t>"),
+    ("GFqDom<int64_t>", "Modular<Log16>"),
+    ("Extension<GFqDom<int64_t>>", "GFqExt<int64_t>"),
+]
+CROSS_SHAPES3 = [          # k = 3: slots 0,3 / 1,4 / 2,5
+    "c0:A c1:B c2:C u0 u1 u2 k3:0 c4:D a1:4 d0 u3 u1 u2 d2 u4 u3",
+    "c2:B c1:A c0:D u2 u1 u0 k5:2 d2 u5 u0 a0:0 u1 c3:A a3:0 u3 u1",
+    "c0:A u0 c1:A u1 u0 c2:A u2 u1 u0 d1 u0 u2 c4:C u4 u0",
+    "c1:C c4:A w1:4 u1 u4 c0:B c3:D m0:3 u0 u1 d4 u1 u0",
+]
+CROSS_SHAPES2 = [          # k = 2: even / odd slots
+    "c0:A c1:B u0 u1 k2:0 k3:1 d0 d1 u2 u3 a2:2 u3",
+    "c1:A c0:C u1 u0 c3:B a1:3 u0 d3 u1 u0 c2:D w0:2 u0 u2",
+]
+
+
+def gen_cross_histories(rng, tier, classes):
+    out = []
+    combos = [c for c in CROSS_COMBOS if all(x in classes for x in c)]
+    cl = sorted(classes)
+    for _ in range(6 if tier == "quick" else 60):          # plus seeded random triples
+        a, b, c = rng.choice(cl), rng.choice(cl), rng.choice(cl)
+        if len({a, b, c}) == 3:
+            combos.append((a, b, c))
+    perms = ((0, 1, 2, 3), (3, 2, 1, 0)) if tier == "quick" else ((0, 1, 2, 3), (3, 2, 1, 0), (1, 3, 0, 2), (2, 0, 3, 1))
+    for combo in combos:
+        for sh in (CROSS_SHAPES3 if len(combo) == 3 else CROSS_SHAPES2):
+            for pm in perms:
+                h = sh
+                for ch, v in zip("ABCD", pm):
+                    h = h.replace(":" + ch, ":" + str(v))
+                out.append(("&".join(combo), h))
+    return out
+
+
+# AddressSanitizer build of the same harness: a read of freed tables / a double free after copy-assign-destroy is an error there even when the
+# bytes happen to be unchanged.  Run on the directed copy / assign / swap / move / destroy histories.
+ASAN_FLAGS = ("-fsanitize=address", "-fno-omit-frame-pointer", "-O1", "-g0")
+ASAN_ENV = {"ASAN_OPTIONS": "exitcode=77:detect_leaks=0:abort_on_error=0:allocator_may_return_null=1", "C16_CPU_LIMIT": "60"}
+
+
+def run_asan(chk, rng, tier, classes, iso):
+    hb, log = vf.build_harness("c16_history.C", deps=("c16_probes.h",), extra_flags=ASAN_FLAGS, name="c16_history_asan")
+    if hb is None and tooling_failure(log):
+        hb, log = vf.build_harness("c16_history.C", deps=("c16_probes.h",), extra_flags=ASAN_FLAGS, name="c16_history_asan", timeout=2400)
+    if hb is None:
+        # no sanitizer runtime / compiler out of resources: the plain build still ran everything
+        inconclusive(chk, "AddressSanitizer build of the history harness not available: the destroy / use-after-free histories ran without it", log)
+        return
+    hists = []
+    for pm in ((0, 1, 2, 3), (1, 0, 3, 2)):
+        for h in DIRECTED:
+            if any(t[0] in "kadwm" for t in h.split()):
+                for ch, v in zip("ABCD", pm):
+                    h = h.replace(ch, str(v))
+                hists.append(h)
+    hists = sorted(set(hists))
+    if tier == "quick":
+        hists = [h for i, h in enumerate(hists) if i % 2 == (chk.seed & 1)]
+    want = [(c, h) for c in classes for h in hists] + gen_cross_histories(vf.Rng(chk.seed + 7), "quick", classes)[::3]
+    e = dict(os.environ); e.update(ASAN_ENV)
+    old = dict(os.environ)
+    os.environ.update(ASAN_ENV)
+    try:
+        out, bad = run_parallel(hb, ["%s %s\n" % ch for ch in want], jobs=6 if tier == "quick" else 12)
+    finally:
+        for k in ASAN_ENV:
+            if k in old:
+                os.environ[k] = old[k]
+            else:
+                os.environ.pop(k, None)
+    if bad:
+        report_stream_loss(chk, "AddressSanitizer histories", sum(1 for l in out if l is None), len(out), bad)
+    n = nerr = 0
+    for (c, h), line in zip(want, out):
+        if line is None:
+            continue
+        cls, steps, crash = parse_line(line)
+        if crash in WATCHDOG or crash == "no-such-constructor":
+            continue
+        n += 1
+        if crash == "exit-77":
+            nerr += 1
+            evs = h.split()
+            ev = evs[len(steps)] if len(steps) < len(evs) else "end"
+            chk.fail_input("history:%s:asan" % c, "memory-error",
+                           {"class": c, "history": h, "during_event": ev, "events_completed": len(steps)}, "no memory error", "AddressSanitizer error (exit 77)",
+                           "use after free / double free / overflow reported by AddressSanitizer (replay: echo '%s %s' | ASAN_OPTIONS=detect_leaks=0 c16_history_asan)" % (c, h))
+        else:
+            check_history(chk, c, h, steps, crash, iso)          # same comparisons on the instrumented build
+    chk.cov["asan_histories_evaluated"] = n
+    chk.cov["asan_errors"] = nerr
 
 
 def build_history_harness(chk):
@@ -766,6 +931,10 @@ def run_histories(chk, rng, tier, classes=None):
         ch = gen_ctor_histories(have.get(c, set()), tier)
         nct[c] = len(ch)
         want += [(c, h) for h in ch]
+    cross = gen_cross_histories(rng, tier, classes)
+    want += cross
+    chk.cov["cross_class_histories"] = len(cross)
+    chk.cov["cross_class_combinations"] = sorted(set(c for c, h in cross))[:40]
     chk.cov["constructor_histories_per_class"] = nct
     chk.cov["mutator_histories_per_class"] = len(mh)
     chk.cov["classes_with_mutator"] = [c for c in classes if c in MUTABLE]
@@ -800,7 +969,7 @@ def run_histories(chk, rng, tier, classes=None):
                 forms[c][k] += 1
         nontrivial = any(t[0] in "kas" for t in h.split()) or len(set(t[1] for t in h.split())) > 1
         chk.count((c, h), nontrivial)
-        if len(chk.cov["samples"]) < 10 and nontrivial and hash((c, h)) % 211 == 0:
+        if len(chk.cov["samples"]) < 10 and nontrivial and __import__("zlib").crc32(("%s %s" % (c, h)).encode()) % 211 == 0:
             chk.sample({"class": c, "history": h, "observed": line[:300]})
     if not chk.cov["samples"] and want and out[len(want) // 2]:
         chk.sample({"class": want[len(want) // 2][0], "history": want[len(want) // 2][1], "observed": out[len(want) // 2][:300]})
@@ -815,6 +984,18 @@ def run_histories(chk, rng, tier, classes=None):
     chk.cov["classes_in_history_harness"] = len(classes)
     chk.cov["probe_comparisons"] = ncmp
     chk.cov["isolated_references"] = len(iso)
+    run_asan(chk, rng, tier, [c for c in classes if c in ASAN_CLASSES], iso)
+    # floors: what a run must have compared to count as a run (tooling trouble must not look like a pass)
+    missed = []
+    if nrun < 0.9 * len(want):
+        missed.append("histories evaluated %d of %d requested" % (nrun, len(want)))
+    if len(iso) < 0.9 * sum(1 for c in classes for q in have.get(c, ()) if iso_ok(c, q) and (q >> 2) not in RECYCLED):
+        missed.append("isolated references %d" % len(iso))
+    if chk.cov.get("asan_histories_evaluated", 0) < 100:
+        missed.append("AddressSanitizer histories evaluated %d (< 100)" % chk.cov.get("asan_histories_evaluated", 0))
+    if missed:
+        chk.cov.setdefault("floor_missed", []).extend(missed)
+        chk.notes.insert(0, "FLOOR MISSED (tooling): " + "; ".join(missed))
     return ncmp
 
 
@@ -825,7 +1006,7 @@ def main(tier, replay=None):
         "Coq 8.16.1 kernel + vm_compute (no native_compute); theorems closed under the global context",
         "harness/c16_objmodel.py (clang 14 JSON AST -> class descriptions: members, copy/assign maps, read/write footprints, refcount protocol) "
         "and clang's own template instantiation / overload resolution; callees without a body in the dump (std::, GMP, RecInt) are assumed const-correct",
-        "the hypotheses run_footprint / own_footprint / default_members of SelfContained.v (\"the code respects its description\") are what the translator "
+        "the hypotheses run_footprint / own_footprint / ctor_footprint of SelfContained.v (\"the code respects its description\") are what the translator "
         "extracts; they are validated, not proved, by the history harness",
         "harness/c16_history.C, checks/C16.py (history generator, lineage bookkeeping); g++ 12 / x86-64 for the implementation side",
     ]
@@ -855,8 +1036,18 @@ def main(tier, replay=None):
         chk.proof_result(res, AREA)
     if descs:
         n_meth, n_ok, partial = structural_c16(chk, descs)
+        translator_gate(chk, meta)
+        for d in descs:
+            if not d["methods"]:
+                chk.broke("class %s is described with NO method (nothing instantiates its members in harness/c16_inst.C): every decision about it would be vacuous" % d["name"])
+        verdict = [(d, om.Mirror(d)) for d in descs if d["name"] not in NO_VERDICT]
+        stateful = sum(1 for d, mi in verdict for m in d["methods"] if mi.claimed(m) and mi.method_sc(m) and not mi.stateless(m))
+        stateless = sum(1 for d, mi in verdict for m in d["methods"] if mi.claimed(m) and mi.stateless(m))
         chk.cov["claimed_const_methods"] = n_meth
         chk.cov["methods_decided_self_contained"] = n_ok
+        chk.cov["methods_decided_self_contained_reading_state"] = stateful          # acceptance says something only for these
+        chk.cov["methods_stateless"] = stateless                                  # read no member, no effect: accepted trivially (inherited ZRing members, areEqual, ...)
+        chk.cov["classes_without_verdict"] = NO_VERDICT
         chk.cov["outside_proved_fragment"] = sorted(set(partial))[:40]
         chk.cov["mutators_decided"] = sorted("%s::%s writes %s" % (d["name"], m["name"], ",".join(m.get("mut_writes", [])))
                                              for d in descs if d["name"] not in NO_VERDICT for m in d["methods"] if om.Mirror(d).is_mutator(m))[:40]
@@ -885,6 +1076,13 @@ def main(tier, replay=None):
                        "3 slots / 2 parameter sets, for one instantiation per template family); after EVERY event the probe (all call forms: call_forms_per_probe) of every live "
                        "object is compared with its lineage's reference, with the same construction in an empty process when the construction is deterministic, and with the "
                        "python oracles (vecval, pf); non-trivial = the history copies/assigns/mutates or has >= 2 objects; distinct = (class, history)")
+    # floors (tooling trouble must not look like a pass)
+    if chk.cov["discharged"] < chk.cov["obligations"] and not any("coq/C16" in b["what"] for b in chk.broken):
+        chk.cov.setdefault("floor_missed", []).append("theorems re-checked %d of %d" % (chk.cov["discharged"], chk.cov["obligations"]))
+    if not descs:
+        chk.cov.setdefault("floor_missed", []).append("no class description in this run (translator)")
+    if chk.cov.get("floor_missed"):
+        print("NOTE property=C16 floor missed (tooling): %s" % "; ".join(chk.cov["floor_missed"]))
     if len(chk.broken) > 20:
         chk.broken = chk.broken[:20] + [{"what": "... %d more" % (len(chk.broken) - 20), "detail": ""}]
     return chk.finish()
